@@ -1,0 +1,74 @@
+//go:build verif
+
+package lnd
+
+import (
+	"context"
+
+	"github.com/btcsuite/btcd/chaincfg"
+	"github.com/elementsproject/peerswap/onchain"
+	"github.com/lightningnetwork/lnd/lnrpc"
+	"github.com/lightningnetwork/lnd/lnrpc/chainrpc"
+	"github.com/lightningnetwork/lnd/lnrpc/routerrpc"
+	"github.com/lightningnetwork/lnd/lnrpc/walletrpc"
+)
+
+// Verification hooks (build tag "verif" only): constructors that take the
+// gRPC client interfaces directly, so that fakes can stand in for lnd, and
+// exports of otherwise private pure functions.
+
+// VerifNewClient builds a Client on top of the given gRPC client interfaces.
+func VerifNewClient(
+	ctx context.Context,
+	lndClient lnrpc.LightningClient,
+	walletClient walletrpc.WalletKitClient,
+	routerClient routerrpc.RouterClient,
+	paymentWatcher *PaymentWatcher,
+	messageListener *MessageListener,
+	chain *onchain.BitcoinOnChain,
+	pubkey string,
+) *Client {
+	return &Client{
+		lndClient:            lndClient,
+		walletClient:         walletClient,
+		routerClient:         routerClient,
+		paymentWatcher:       paymentWatcher,
+		messageListener:      messageListener,
+		bitcoinOnChain:       chain,
+		ctx:                  ctx,
+		pubkey:               pubkey,
+		invoiceSubscriptions: make(map[string]interface{}),
+	}
+}
+
+// VerifNewTxWatcher builds a TxWatcher on top of the given client interfaces.
+func VerifNewTxWatcher(
+	ctx context.Context,
+	lnrpcClient lnrpc.LightningClient,
+	chainrpcClient chainrpc.ChainNotifierClient,
+	network *chaincfg.Params,
+	targetConfirmation, targetCsv uint32,
+) *TxWatcher {
+	ctx, cancel := context.WithCancel(ctx)
+	return &TxWatcher{
+		ctx:                  ctx,
+		cancel:               cancel,
+		lnrpcClient:          lnrpcClient,
+		chainrpcClient:       chainrpcClient,
+		network:              network,
+		targetConfs:          targetConfirmation,
+		targetCsv:            targetCsv,
+		confirmationWatchers: make(map[string]bool),
+		waitForCsvWatchers:   make(map[string]bool),
+	}
+}
+
+// VerifBuildDirectClaimPaymentRequest exports buildDirectClaimPaymentRequest.
+func VerifBuildDirectClaimPaymentRequest(
+	payreq string,
+	decoded *lnrpc.PayReq,
+	channel *lnrpc.Channel,
+	maxTotalCLTVDelta uint32,
+) (*routerrpc.SendPaymentRequest, error) {
+	return buildDirectClaimPaymentRequest(payreq, decoded, channel, maxTotalCLTVDelta)
+}
